@@ -105,9 +105,24 @@ func runCons(t *testing.T, tk []string) string {
 		if key != 1 || act == sim.KillBefore || len(frame) < 4 {
 			return
 		}
+		v := int16(uint16(frame[2])<<8 | uint16(frame[3]))
 		wmu.Lock()
-		fetchVers[conn] = append(fetchVers[conn], int16(uint16(frame[2])<<8|uint16(frame[3])))
+		fetchVers[conn] = append(fetchVers[conn], v)
 		wmu.Unlock()
+		req := kmsg.NewPtrFetchRequest()
+		req.SetVersion(v)
+		b := kbin.Reader{Src: frame[8:]}
+		b.NullableString()
+		if req.IsFlexible() {
+			kmsg.SkipTags(&b)
+		}
+		if req.ReadFrom(b.Src) == nil {
+			for _, rt := range req.Topics {
+				for _, rp := range rt.Partitions {
+					log.Add("Fq:%d:%d:%d:%d:%d", conn, rp.Partition, rp.FetchOffset, req.SessionID, req.SessionEpoch)
+				}
+			}
+		}
 	}
 	net.OnResponse = func(conn int, key int16, frame []byte, delivered bool) {
 		if key != 1 {
@@ -224,6 +239,32 @@ func runCons(t *testing.T, tk []string) string {
 			}
 			done.Done()
 		})
+	}
+	// prefill so that every partition already holds the start offset when the consumer resolves it
+	if startoff > 0 {
+		wr := hx.NewRng(seed*5 + 3)
+		cl, err := kgo.NewClient(append([]kgo.Opt{kgo.RecordPartitioner(kgo.ManualPartitioner()), kgo.ProducerLinger(0)}, common...)...)
+		if err != nil {
+			return "ERR:client:" + err.Error()
+		}
+		var done sync.WaitGroup
+		for p := 0; p < parts; p++ {
+			for i := int64(0); i < startoff+2; i++ {
+				id := nextID.Add(1)
+				done.Add(1)
+				rec := &kgo.Record{Topic: "t", Partition: int32(p), Key: []byte(strconv.FormatInt(id, 10)), Value: make([]byte, wr.Intn(40))}
+				cl.Produce(ctx, rec, func(r *kgo.Record, err error) {
+					if err == nil {
+						log.Add("D:%d:%d:%d:0", id, r.Partition, r.Offset)
+					} else {
+						log.Add("Dx:%d", id)
+					}
+					done.Done()
+				})
+			}
+		}
+		done.Wait()
+		cl.Close()
 	}
 	// plain producer
 	if plainN > 0 {
